@@ -27,7 +27,7 @@ ASSUMPTIONS = [
     "red-zone detection has ASan's blind spot: a read that jumps over the 4096-element pad",
 ]
 DECIDING_COUNTERS = ["compared[numba]", "compared[numpy]", "compared[cuda]", "pyfunc_compared",
-                     "api_kernel_events"]
+                     "api_kernel_events", "refill_compared[cuda]", "refill_compared[numba]"]
 MIN_NONTRIVIAL = {"quick": 800, "thorough": 8000}
 JOBS = {"quick": 10, "thorough": 16}
 
@@ -189,6 +189,29 @@ def run_case(c, rec, backends):
                 except Exception as e:
                     rec.note(f"py_func not runnable: {e!r}")
 
+        # History: the caller refills the SAME buffers in place and calls again; the statistics
+        # must be those of the current contents (no stale copy of an earlier record).
+        if be == "cuda" or (c["seed"][-1] % 3 == 0):
+            r2 = gen.rng_for(*c["seed"], "refill")
+            xv[:] = gen.record(r2, N, "white") * (float(np.std(x)) or 1.0)
+            if cross:
+                yv[:] = gen.record(r2, N, "ar1")
+            ref2 = refmodel.ref_stats(xv, yv, st, L, w, om, order)
+            try:
+                got2 = tuple(float(v) for v in
+                             call_kernel(f, xv, yv, sv, L, wv, om, Qv, cross, order))
+                rec.count(f"refill_compared[{be}]")
+                bad2, worst2 = refmodel.compare_stats(got2, ref2)
+                rec.ratio(f"{be}_refill_err_over_budget", worst2)
+                for name, err, bound in bad2:
+                    rec.violation(f"{be}:stale-after-inplace-refill",
+                                  f"{be}: second call on the same buffers after an in-place "
+                                  f"refill: {name} err {err:.3e} > budget {bound:.3e} (the result "
+                                  f"matches the previous contents: "
+                                  f"{not refmodel.compare_stats(got2, ref)[0]})")
+                    break
+            except Exception as e:
+                rec.violation(f"{be}:raises", f"second call raised {type(e).__name__}: {e}")
 
 def run_api(params, rec):
     """Every dispatcher call made by SpectrumAnalyzer is compared with the reference."""
